@@ -1169,7 +1169,22 @@ impl TransportManager {
                     match command {
                         InnerTransportManagerCommand::DialPeer { peer } => {
                             if let Err(error) = self.dial(peer).await {
-                                tracing::debug!(target: LOG_TARGET, ?peer, ?error, "failed to dial peer")
+                                tracing::debug!(target: LOG_TARGET, ?peer, ?error, "failed to dial peer");
+
+                                // The protocol's dial request was accepted when it was queued: tell
+                                // the protocols that it has ended, otherwise they wait for an outcome
+                                // forever (e.g. when the node is at its connection limit).
+                                if !std::matches!(error, Error::AlreadyConnected) {
+                                    for context in self.protocols.values() {
+                                        let event = InnerTransportEvent::DialFailure {
+                                            peer,
+                                            addresses: Vec::new(),
+                                        };
+                                        if let Err(error) = context.tx.try_send(event) {
+                                            let _ = context.tx.send(error.into_inner()).await;
+                                        }
+                                    }
+                                }
                             }
                         }
                         InnerTransportManagerCommand::DialAddress { address } => {
